@@ -89,6 +89,11 @@ fn creator_in(dag: &Dag, e: &Ev, v: u8) -> Option<String> {
 /// The sender's power level at the event: from the power-levels / create events among its own
 /// auth events.
 pub fn sender_power_at(dag: &Dag, e: &Ev, v: u8) -> Result<i64, String> {
+    // the create event has no auth events; every other event of the room has it in its auth chain,
+    // so it is emitted first whatever level is assumed for it
+    if e.ty == "m.room.create" && e.auth.is_empty() {
+        return Ok(100);
+    }
     let mut pl_ev = None;
     for a in &e.auth {
         if let Some(x) = dag.get(a) {
